@@ -20,6 +20,8 @@ Producer: harness/layers_common.py.
   fromdata NAME H                             PropertyLayer.from_data(NAME, <array held as H>): a free-standing layer (copy)
   grab H LID | hget H C | hset H C V | hdump H
   grabmask H                                  legacy: H = grid.empty_mask (the live array)
+  rebind LID H                                legacy: layer.data = <array held as H> (a plain attribute: the layer now
+                                              *shares* that array); not an op of the model's histories
   dump LID | dumpn NAME | lsel LID COND | agg LID sum|max|min
   gset NAME                                   grid.NAME = <a plain object>  (new: HasPropertyLayers.__setattr__)
   place A C | move A C | remove A | empties
@@ -291,6 +293,11 @@ def stepLine (st : State × Geo) (ws : List String) : (State × Geo) × String :
       match parseImpl k, parseDims dims, parseCap cap, parseFlag torus with
       | some k, some dims, some cap, some torus => ((init k dims cap, ⟨gridclass, torus⟩), "ok")
       | _, _, _, _ => (st, "bad-op")
+  | ["rebind", l, h] =>
+      -- legacy `layer.data = <held array>`: a transition of the model that is not an `Op` (see Model/Layers.lean)
+      match l.toNat?, h.toNat? with
+      | some l, some h => let (st', o) := rebind st.1 l h; ((st', st.2), fmtOut o)
+      | _, _ => (st, "bad-op")
   | ws =>
       match parseOp st.1.dims st.1.impl st.2 ws with
       | none => (st, "bad-op")
